@@ -8,6 +8,7 @@ seen at the console identifies the send() call it came from (DESIGN.md §2.6).
 from __future__ import annotations
 
 import asyncio
+import zlib
 import datetime
 
 import pyairtouch.at4.comms.x1F_ext as e4
@@ -188,8 +189,13 @@ async def execute(gen, ops, w: SockWorld, run: Run, counters=None):
             cache = run.__dict__.setdefault("policies", {})
             policy = cache.get(tuple(pol))
             if policy is None:
-                policy = cache[tuple(pol)] = psock.RetryPolicy(max_retries=pol[0],
-                                                               max_lifetime=pol[1])
+                # (built by keyword or, as documented, positionally: retries, lifetime)
+                if (zlib.crc32(repr(ops).encode()) + len(cache)) % 2:
+                    policy = psock.RetryPolicy(pol[0], pol[1])
+                    log.add("SCRIPT.policy_positional", pol=list(pol))
+                else:
+                    policy = psock.RetryPolicy(max_retries=pol[0], max_lifetime=pol[1])
+                cache[tuple(pol)] = policy
             else:
                 policy.max_retries, policy.max_lifetime = pol[0], pol[1]
             if rec.get("mode") == "hdr":
